@@ -179,3 +179,16 @@ def register_all(prop):
                "certificates; oracle: model of 'session comes up' vs. observed, refused peers get no LoginResp and leave no state. non-trivial = TLS or "
                "proxy encryption on with >= 2 KB marker-bearing traffic, or an identity case whose expected outcome is refusal."),
          assumptions=["'in clear' means the marker bytes in raw, base64 or hex form; cryptographic strength is not assessed", "compression alone is not claimed to hide anything"])
+    prop("C01", qshards=16, tshards=16, qlimit=600, tlimit=3600,
+         rule=("tunnels: real in-process frps + frpc (+ a second frpc with visitors for stcp / xtcp-with-fallback); rapid draws the option vector (kind tcp / "
+               "https via SNI / tcpmux via CONNECT with and without passthrough / stcp / xtcp falling back to stcp; encryption; compression; client- or "
+               "server-side bandwidth limit; tcpMux; control transport tcp / websocket / kcp / quic; TLS and custom first byte; poolCount 0..3; proxy "
+               "protocol v1/v2; vhost https port shared with the control port; 1..3 proxies) and 1..5 simultaneous connections, each with two independent "
+               "streams (length classes 0..1 MiB around buffer boundaries, content random / zeros / periodic / text, write chunking one / small / mixed / "
+               "big) and a close script (duplex until both received everything; backend answers and closes while the user only reads; user writes and "
+               "closes while the backend only reads; early close by either side). Oracle: received bytes are a prefix of the written bytes (compared on "
+               "the fly), completion per close script, every peer closed within 15 s, the tagged connection reaches the backend of the dialled proxy and "
+               "no other, the PROXY header carries the user's real address, and with a limit the bytes delivered in the observed window <= limit x window "
+               "+ burst. non-trivial = >= 1 byte through >= 1 wrapper or >= 2 concurrent connections; distinct = distinct (option vector, stream shapes)."),
+         assumptions=["loopback only", "rate bound checked over the whole observed window (sound under load because receive times can only be later than pass-through times)",
+                      "closing a raw kcp connection without stream multiplexing does not flush: completion after close is not asserted there"])
